@@ -743,9 +743,9 @@ fn analyze_builtin(
 				})
 			}
 		}
-		Builtin::Format => Ok(()),
-		Builtin::Print => Ok(()),
-		Builtin::Eprint => Ok(()),
+		Builtin::Format => analyze_format_arguments(name, arguments),
+		Builtin::Print => analyze_format_arguments(name, arguments),
+		Builtin::Eprint => analyze_format_arguments(name, arguments),
 		Builtin::File => Ok(()),
 		Builtin::Line => Ok(()),
 		Builtin::Dbg =>
@@ -762,7 +762,36 @@ fn analyze_builtin(
 				})
 			}
 		}
-		Builtin::Panic => Ok(()),
+		Builtin::Panic => analyze_format_arguments(name, arguments),
 		Builtin::IncludeBytes => todo!(),
 	}
+}
+
+fn analyze_format_arguments(
+	name: &Identifier,
+	arguments: &[Expression],
+) -> Result<(), Error>
+{
+	for argument in arguments
+	{
+		match argument.value_type()
+		{
+			// These are the types that cannot be formatted.
+			Some(Ok(
+				argument_type @ (ValueType::Void
+				| ValueType::SlicePointer { .. }
+				| ValueType::Arraylike { .. }
+				| ValueType::View { .. }),
+			)) =>
+			{
+				return Err(Error::BuiltinArgumentTypeMismatch {
+					argument_type,
+					location: argument.location().clone(),
+					location_of_builtin: name.location.clone(),
+				});
+			}
+			_ => (),
+		}
+	}
+	Ok(())
 }
